@@ -336,7 +336,15 @@ class LieselInterface:
         model_state
             A dictionary of node names and their corresponding :class:`.NodeState`.
         """
-        return model_state["_model_log_prob"].value
+        log_prob = model_state["_model_log_prob"].value
+
+        if log_prob is None:
+            # a user-defined log-probability node is forwarded by a transient node,
+            # which carries no value in the model state: evaluate it from the state
+            self._model.state = model_state
+            log_prob = self._model.log_prob
+
+        return log_prob
 
 
 class NamedTupleInterface:
